@@ -42,7 +42,13 @@ def make_job(rng, jid, option=None, **kw):
     if rng.random() < 0.25:
         samples = sorted(set(rng.randint(1, 60) for _ in range(rng.randint(1, 4))))
         pre_sample = rng.random() < 0.5
-    calls = [{"obj": 0, "call": "setup", "script": 0, "peek": True, "peek_state": size}]
+    calls = []
+    # a quarter of the jobs re-use the engine OBJECT (and the RDScript object): an earlier simulation of the same script
+    # through the package's own driver ran to completion on it
+    reuse = rng.random() < 0.25
+    if reuse:
+        calls.append({"obj": 0, "call": "simulate", "script": 0, "full": True})
+    calls += [{"obj": 0, "call": "setup", "script": 0, "peek": True, "peek_state": size}, {"obj": 0, "call": "is_complete"}]
     if pre_sample:
         calls.append({"obj": 0, "call": "sample"})
         if rng.random() < 0.5:
@@ -52,6 +58,10 @@ def make_job(rng, jid, option=None, **kw):
     calls.append({"obj": 0, "call": "finalize"})
     info["samples"] = samples
     info["pre_sample"] = sum(1 for c in calls if c["call"] == "sample")
+    info["reuse"] = reuse
+    if not samples and not info["pre_sample"] and rng.random() < 0.6:
+        # the same script through simulate_script on the (now used) engine object: the same records
+        calls.append({"obj": 0, "call": "simulate", "script": 0, "full": True})
     return {"id": jid, "engines": [option], "scripts": [S], "calls": calls, "info": info, "timeout": 20}
 
 
@@ -66,8 +76,19 @@ def unpack(job, r):
     setup = byc["setup"][0]
     drive = byc["drive"][0]["ret"]
     out = byc["get_output"][0]["ret"]
-    return {"meta": setup["meta"], "T0": setup["T"], "X0": setup["X"], "T": drive["T"], "U": drive["U"], "X": drive["X"],
-            "C": drive["C"], "progress": drive["progress"], "out": out}
+    sims = []
+    seen_setup = False
+    for c, x in zip(job["calls"], res):
+        if c["call"] == "setup":
+            seen_setup = True
+        if c["call"] == "simulate":
+            sims.append(("after" if seen_setup else "before", x["ret"]))
+    inits = []
+    for x in res:
+        inits += lc.init_failures(x)
+    return {"inits": inits, "meta": setup["meta"], "T0": setup["T"], "X0": setup["X"], "T": drive["T"], "U": drive["U"], "X": drive["X"],
+            "C": drive["C"], "progress": drive["progress"], "out": out, "C0": byc["is_complete"][0]["ret"], "sims": sims,
+            "script_changed": setup.get("script_changed", [])}
 
 
 def oracle(job, ob):
@@ -83,6 +104,7 @@ def oracle(job, ob):
     tmax, dt, iv, ts = meta["tmax"], meta["dt"], meta["interval"], meta["tsamples"]
     fixed = info["option"] != "gillespie"
     manual = bool(info["samples"]) or info["pre_sample"] > 0
+    bad += ob.get("inits", [])
     # ---- shape
     if out["nt"] != out["nsamples"] or out["nd"] != out["nsamples"] * ns * nc or out["nspecies"] != ns or out["ncells"] != nc:
         bad.append(("shape", "data does not hold nsamples*nspecies*ncells values / one time per sample",
@@ -90,6 +112,32 @@ def oracle(job, ob):
         return bad
     if T[0] != 0.0:
         bad.append(("clock0", "clock is not 0 after setup", T[0], 0.0))
+    # ---- the time quantities the engine was given, against the values computed here from seconds (own conversion)
+    ex = info.get("expect")
+    if ex:
+        def same(a, b):
+            return a == b or close(a, frac(b), rel=1e-9, abs_floor=1e-300)
+        what = "stated in %s (t_sample as %s), script time unit %s" % (ex["stated_in"], info.get("ts_form"), ex["time_unit"])
+        if len(ts) != len(ex["tsamples"]) or not all(same(a, b) for a, b in zip(ts, ex["tsamples"])):
+            bad.append(("time-units:t_sample", "requested times handed to the engine differ from the requested times (%s)" % what, ts[:8], ex["tsamples"][:8]))
+        if not same(dt, ex["dt"]):
+            bad.append(("time-units:time_step", "time step handed to the engine differs from the script's (%s)" % what, dt, ex["dt"]))
+        if ex["tmax"] is not None and not same(tmax, ex["tmax"]):
+            bad.append(("time-units:t_max", "t_max handed to the engine differs from the script's / the last requested time (%s)" % what, tmax, ex["tmax"]))
+        if not same(iv, ex["interval"]):
+            bad.append(("time-units:sampling_interval", "sampling interval handed to the engine differs from the script's (%s)" % what, iv, ex["interval"]))
+    if ob.get("C0") is not False:
+        bad.append(("is-complete-after-setup", "is_complete() is %r right after setup()%s" % (ob.get("C0"), " on an engine object that ran a simulation before" if info.get("reuse") else ""),
+                    ob.get("C0"), False))
+    if ob.get("script_changed"):
+        bad.append(("setup-modifies-script", "setup() changed the caller's script: %s" % ob["script_changed"][0]["field"], ob["script_changed"][:3], []))
+    for when, so in ob.get("sims", []):
+        if manual or all(U):
+            break          # explicit sample() calls add records; a drive that hit its iteration cap did not finish the run
+        if so["hash"] != out["hash"]:
+            bad.append(("simulate-records:%s" % when, "simulate_script() on the same engine object (%s the step-by-step run) does not record what the step-by-step run of the "
+                        "same script records" % when, {"t": so["t"][:10], "n": so["nsamples"]}, {"t": out["t"][:10], "n": out["nsamples"]}))
+            break
     # ---- completion: the first False; later calls change nothing
     first_false = next((i for i, u in enumerate(U) if not u), None)
     n_steps = first_false + 1 if first_false is not None else len(U)   # iterate() calls that may have advanced the clock
